@@ -407,8 +407,8 @@ func init() {
 									}
 									attempt("after " + change)
 								}
-								a.StopForce()
-								b.StopForce()
+								dropNode(a)
+								dropNode(b)
 							}
 						}
 					}
